@@ -1,19 +1,19 @@
 SPECIFICATION CSpec
 CONSTANTS
-  Forms <- CAllForms
+  Forms <- COneForm
   Indents <- CInd02
-  MaxIdAnns = 2
-  MaxParams = 1
-  MaxParamAnns = 2
+  MaxIdAnns = 0
+  MaxParams = 0
+  MaxParamAnns = 0
   MaxPartLines = 1
-  MaxDescLines = 1
-  MaxParas = 1
+  MaxDescLines = 0
+  MaxParas = 0
   MaxTags = 1
   TagNames <- CTagsRS
   MaxTagAnns = 1
   MaxCont = 1
   MaxNoise = 0
-  AtReturns = TRUE
+  AtReturns = FALSE
   FaultKinds <- CNoFaults
   MaxFaults = 0
   KeepLines = TRUE
@@ -21,4 +21,3 @@ CONSTANTS
   StartLine = 1
 CHECK_DEADLOCK FALSE
 INVARIANT RoundTrip
-INVARIANT WriterFix
